@@ -149,5 +149,8 @@ def run(ctx):
     gen = ctx.family("generic")
     gen.each_bin(lambda b, progs, r: [check_prog(ctx, r, p, max(2, n_values // 3)) for p in progs])
     ctx.cov["generic_programs"] = len(gen.progs)
+    sh = ctx.family("shadow")
+    sh.each_bin(lambda b, progs, r: [check_prog(ctx, r, p, max(2, n_values // 3)) for p in progs])
+    ctx.cov["shadow_programs"] = len(sh.progs)
     ctx.cov["programs"] = len(fam.progs)
     ctx.cov["handlers"] = sum(1 for p in fam.progs for _ in handlers(p))
